@@ -65,6 +65,11 @@ def _run_f(case):
     uf = case["update_full"]
     ok, ra, rb = objcmp.both(fails, tag, lambda: getattr(ma, case["op"])(f, update_full=uf), lambda: getattr(mb, case["op"])(g, update_full=uf))
     if ok:
+        kres = float(np.max(oracle.cond(np.asarray(rb.Lambda, float))))
+        if not np.isfinite(kres) or kres > 1e6:
+            fails.append(Failure("excluded:ill_conditioned_derived", tag))
+            return fails
+        kap = max(kap, kres)
         objcmp.compare(fails, tag, ra, rb, kap, pts=x)
         ok, la, lb_ = objcmp.both(fails, tag + ".log_integral", lambda: ra.log_integral(), lambda: rb.log_integral())
         if ok:
